@@ -253,6 +253,8 @@ structure Env where
   proposal : Option Marked := none        -- getMaxPriorityFn
   missing : List Nat := []                -- hashes NOT in the block cache (blockInCacheFn returns nil)
   certErr : Bool := false                 -- CertificateParams fails
+  bls : Bool := false                     -- CurrentCaravelParams reports BLS enabled while a context is delivered: own votes go
+                                          -- through VoteBLSMgr.SignVote, and the node is not in the (empty) look-back validator set
 
 def Env.inCache (e : Env) (h : Nat) : Bool := !e.missing.contains h
 
@@ -359,6 +361,7 @@ def voteCore (s : St) (k : Kind) (h prio : Nat) : St × Option (Nat × Seat) :=
     | some seat =>
       if k = .next ∧ s.v.nextVoted.isSome ∧ s.g.c.alreadyVoted .next r i then (s, none)   -- "already voted."
       else if k = .cert ∧ s.env.certErr then (s, none)                          -- signVote fails
+      else if s.env.bls then (s, none)                                         -- SignVote: "not in validators set"
       else
         let res := s.g.cast k r i h prio seat.w
         if !res.2 then ({ s with g := res.1 }, none)
@@ -489,6 +492,25 @@ def judge (s : St) (k : Kind) (count q h prio vt : Nat) : St :=
   | .next => judgeNext s count q h prio vt
   | .cert => judgeCert s count q h prio vt
 
+/-- `Voter.removeMarkedBlock` (called by `Server.commit` when the insert of the committed block fails);
+    `none` = the real code dereferences a nil `nextMarked` -/
+def removeMarkedBlock (s : St) (h : Nat) : Option St :=
+  match s.v.nextMarked with
+  | none => none
+  | some m => if m.hash = h then some { s with v := { s.v with nextMarked := none, nextVoted := none } } else some s
+
+/-- `Voter.existHashOverVotesThreshold` (read-only): do the prevotes or the precommits counted in the current context,
+    summed over all hashes (uint32), reach the two thresholds? -/
+def existOver (s : St) (r i chTh hoTh : Nat) : Bool :=
+  match s.v.cur? with
+  | none => false
+  | some w =>
+    if r ≠ w.round ∨ i ≠ w.index then false
+    else
+      let total (m : Manager) (k : Kind) : Nat := ((m.get k).counts.foldl (fun acc e => (acc + e.2) % u32) 0)
+      let check (k : Kind) : Bool := decide (total w.chamber k ≥ chTh ∧ total w.house k ≥ hoTh)
+      check .prevote || check .precommit
+
 /-- `Voter.updateContext` -/
 def updateContext (s : St) (r i step : Nat) (cert : Bool) : St :=
   let changed := s.v.round ≠ some r ∨ s.v.index ≠ i
@@ -594,6 +616,7 @@ def processVoteMsg (s : St) (m : VoteMsg) : St × Ret :=
 inductive Ev
   | ctx (r i step : Nat) (cert : Bool)          -- ContextChangeEvent (step timer, index change, new round)
   | vote (m : VoteMsg)                          -- a received vote
+  | unmark (h : Nat)                            -- Voter.removeMarkedBlock(h)
   | crash                                       -- kill + restart between two calls
   | arm (n : Nat) (after : Bool)                -- the next ctx/vote call dies at its n-th db.Put (before / right after it)
   | env (e : Env)                               -- the collaborators change their answers (proposals, sortition, cache)
@@ -615,11 +638,17 @@ def step (s : St) : Ev → St × Outcome
     let res := finish (updateContext { s with g := { s.g with puts := 0, out := [] } } r i st cert)
     (res.1, if res.2 then .crashed else .done .nil)
   | .vote m =>
-    let pr := processVoteMsg { s with g := { s.g with puts := 0, out := [] } } m
-    let res := finish pr.1
+    -- the BLS switch of the scripted environment applies to delivered contexts only
+    let pr := processVoteMsg { s with g := { s.g with puts := 0, out := [] }, env := { s.env with bls := false } } m
+    let res := finish { pr.1 with env := { pr.1.env with bls := s.env.bls } }
     if res.2 then (res.1, .crashed)
     else if pr.2 = .panic then (restart res.1, .done .panic)
     else (res.1, .done pr.2)
+  | .unmark h =>
+    let s0 : St := { s with g := { s.g with puts := 0, out := [] } }
+    match removeMarkedBlock s0 h with
+    | none => (restart (finish s0).1, .done .panic)
+    | some s1 => ((finish s1).1, .done .nil)
   | .crash => (restart { s with g := { s.g with out := [] } }, .done .nil)
   | .arm n after => ({ s with g := { s.g with armed := some (n, after), out := [] } }, .done .nil)
   | .env e => ({ s with g := { s.g with out := [] }, env := e }, .done .nil)
